@@ -701,3 +701,48 @@ def run(ctx) -> None:  # noqa: F811
     if exits and not bad:
         ctx.ok("R-ALLSPECIES", f"{f.qualname}:species-loop", f.loc(loop), "early exit only when no candidate is left")
     _inner_run_c27(ctx)
+
+
+# ---- added after the seeded change C27-r3seed5: fractional coordinates in the structure-factor phase
+_inner_run_c27b = run
+
+
+def run(ctx) -> None:  # noqa: F811
+    import ast as _ast
+
+    from ..cfg import DataFlow as _DF
+    from ..model import call_name as _cn, norm_text as _nt, walk_no_nested as _walk
+    from ..rules import matalg
+
+    ctx.rule("R-FRACTIONAL", "calculate_structure_factors builds its phase exp(-2πi · X) from X = r · cell⁻¹ · hklᵀ, the "
+             "Miller indices times the *fractional* coordinates (matrix normal form of sa/rules/matalg.py: products, "
+             "transposes, inverses, solve, inlined one-line helpers such as reciprocal_cell(c) = pinv(c)ᵀ).  Only then "
+             "a lattice translation r → r + n·cell adds the integers n·hklᵀ to X and leaves F unchanged; "
+             "r · (cell⁻¹)ᵀ agrees for symmetric cell matrices only")
+    repo = ctx.repo
+    f = repo.function("abtem.bloch.dynamical", "calculate_structure_factors")
+    df = _DF(f.node)
+    exps = [c for c in _walk(f.node) if isinstance(c, _ast.Call) and (_cn(c) or "").split(".")[-1] == "exp" and c.args]
+    ctx.require(len(exps) == 1, f"{f.qualname}: expected one exp(...) phase")
+    arg = exps[0].args[0]
+    mats = [n for n in _ast.walk(arg) if (isinstance(n, _ast.BinOp) and isinstance(n.op, _ast.MatMult)) or (
+        isinstance(n, _ast.Call) and (_cn(n) or "").split(".")[-1] in ("dot", "matmul"))]
+    ctx.require(len(mats) >= 1, f"{f.qualname}: the phase contains no matrix product")
+    st = next(s_ for s_ in _walk(f.node) if isinstance(s_, _ast.stmt) and any(x is exps[0] for x in _ast.walk(s_))
+              and not isinstance(s_, (_ast.If, _ast.For, _ast.With, _ast.Try, _ast.FunctionDef)))
+    at = df.cfg.node_of(st).idx
+    mn = matalg.MatNorm(repo, f, df)
+    got = mn.norm(mats[0], at)
+    atoms_p = next((p for p in f.positional_params if p == "atoms"), None)
+    hkl_p = next((p for p in f.positional_params if p == "hkl"), None)
+    ctx.require(atoms_p is not None and hkl_p is not None, f"{f.qualname}: parameters `atoms` / `hkl` not found")
+    want_a = [(f"{atoms_p}.positions", False, False), (f"{atoms_p}.cell", True, False), (hkl_p, False, True)]
+    if len(got) == 2 and got[0][0].startswith(f"{atoms_p}.get_scaled_positions(") and got[0][1:] == (False, False) \
+            and got[1] == want_a[2]:
+        got = want_a  # ASE's own fractional coordinates
+    ctx.check(got == want_a, "R-FRACTIONAL", f"{f.qualname}:phase", f.loc(mats[0]),
+              f"phase matrix = {matalg.show(got)}",
+              f"the phase matrix `{_nt(mats[0])[:50]}` normalises to {matalg.show(got)}, not {matalg.show(want_a)}: the "
+              "coordinates are not the fractional ones, so F changes under a lattice translation and centring-forbidden "
+              "reflections become non-zero for non-orthogonal cells", key_detail="fractional")
+    _inner_run_c27b(ctx)
